@@ -83,6 +83,20 @@ def oracle(obs):
         fails.append((kind, 'thread %d: _handle_eio_disconnect swallowed %s' % (t, cls)))
     if 'lost' in obs['actions'] and obs['environ_left']:
         fails.append(('environ-residue', 'environ of the lost transport still stored'))
+    # "no trace of the client remains on the server": whatever in the server object still names the departed transport /
+    # the ended sessions, beyond the residue judged by name above
+    judged = set()
+    if any(obs['residue'][n][0] for n in (0, 1)):
+        judged.add('server.manager.rooms')
+    if any(obs['residue'][n][1] for n in (0, 1)):
+        judged.add('server.manager.pending_disconnect')
+    if obs['environ_left']:
+        judged.add('server.environ')
+    left = [p for p in obs.get('trace_left') or [] if p not in judged]
+    if left:
+        fails.append(('client-trace-left', 'the server object still refers to the departed %s at %s%s' % (
+            'transport / its sessions' if 'lost' in obs['actions'] else 'session', left,
+            ' (the client had sent %r and not yet all attachments)' % obs['half_binary'] if obs.get('half_binary') else '')))
     if not obs['other_client_ok']:
         fails.append(('other-client-affected', 'the other client of the namespace is no longer connected'))
     if obs.get('stray_calls'):
@@ -224,8 +238,34 @@ def pubsub_triple_configs():
     return out
 
 
+def half_binary_configs(rng, thorough):
+    """the client is in the middle of a binary event / ack (header received, attachments outstanding) when its
+    transport is lost while another termination is in progress.  -> (exhaustive, modulo declared independence)"""
+    def hb():
+        n = rng.choice([1, 1, 2, 3])
+        return {'ns': rng.choice(['/', '/', '/b']), 'n': n, 'arrived': rng.randrange(n), 'ack': rng.random() < 0.25}
+    red = []
+    for a in ('api', 'other_api'):
+        for o in (False, True):
+            red.append({'actions': [a, 'lost'], 'others': o, 'half_binary': hb()})
+    red.append({'actions': ['api', 'lost'], 'others': False, 'nested': True, 'half_binary': hb()})
+    for a in ('api', 'queue'):
+        red.append({'actions': [a, 'lost'], 'others': False, 'manager': 'pubsub', 'half_binary': hb()})
+    # (without a transport loss the buffer legitimately stays: the transport lives on)
+    red.append({'actions': ['api', 'other_api'], 'others': False, 'half_binary': hb()})
+    full = []
+    if thorough:
+        full = [{'actions': ['api', 'lost'], 'others': o, 'half_binary': hb()} for o in (False, True)]
+        red += [{'actions': ['api', 'api', 'lost'], 'others': False, 'half_binary': hb()},
+                {'actions': ['api', 'other_api', 'lost'], 'others': False, 'half_binary': hb()}]
+    return full, red
+
+
 def cfg_key(cfg, reduced=False):
+    hb = cfg.get('half_binary')
     return '+'.join(cfg['actions']) + ('/pubsub' if cfg.get('manager') == 'pubsub' else '') + \
+        ('/half-binary(%s%s,%d of %d)' % ('ack ' if hb.get('ack') else '', hb.get('ns', '/'), hb.get('arrived', 0), hb.get('n', 1))
+         if hb else '') + \
         ('/shared-ns' if cfg['others'] else '') + \
         ('/side:' + '+'.join(cfg['side']) if cfg.get('side') else '') + \
         ('/nested' if cfg.get('nested') else '') + ('/reduced' if reduced else '')
@@ -250,6 +290,10 @@ def judge(ctx, cfg, obs, m, stats, reduced):
            'oracle': [f[1] for f in fails], 'correspondence': diffs}
     stats['runs'] += 1
     ctx.count('actions:' + cfg_key(cfg, reduced))
+    if cfg.get('half_binary'):
+        stats['half_binary_runs'] += 1
+        if not obs['overlap']:
+            stats['half_binary_serial'] += 1
     if cfg.get('manager') == 'pubsub':
         stats['pubsub_runs'] += 1
         if not obs['overlap']:
@@ -324,7 +368,7 @@ def run(ctx):
     C.build_driver('sched')
     stats = {'runs': 0, 'serial': 0, 'overlap': 0, 'overlap_failing': 0, 'overlap_model_agrees': 0, 'shapes': {},
              'example': None, 'per_config': {}, 'nontrivial': set(), 'samples': [], 'outcomes': {},
-             'nested_runs': 0, 'nested_serial': 0,
+             'nested_runs': 0, 'nested_serial': 0, 'half_binary_runs': 0, 'half_binary_serial': 0,
              'pubsub_runs': 0, 'pubsub_serial': 0, 'pubsub_queue': 0, 'pubsub_resubmitted': 0}
     run_configs(ctx, pair_configs(ctx.thorough), stats)
     pairs = stats['runs']
@@ -339,6 +383,9 @@ def run(ctx):
     run_configs(ctx, pfull, stats)
     run_configs(ctx, pred, stats, indep=t.independent)
     run_configs(ctx, pnested, stats)
+    hfull, hred = half_binary_configs(ctx.rng, ctx.thorough)
+    run_configs(ctx, hfull, stats)
+    run_configs(ctx, hred, stats, indep=t.independent)
     nested_pairs = stats['runs'] - pairs
     pairs = stats['runs']
     exhaustive3 = None
@@ -387,6 +434,15 @@ def run(ctx):
         'an action on the other namespace modulo the declared independence')
     if exhaustive3 is not None:
         cov['triple_schedules_modulo_independence'] = exhaustive3
+    cov['half_received_binary_packet_schedules'] = stats['half_binary_runs']
+    cov['half_received_binary_packet_gate_serial'] = stats['half_binary_serial']
+    cov['half_received_binary_packet_scope'] = (
+        'the client has sent the header of a binary event / ack (namespace, number of attachments announced / arrived drawn '
+        'from the seed) and not all attachments when {disconnect() | disconnect() of the other namespace | queue} and the loss '
+        'of its transport start (plain and pub/sub manager, sole member / shared namespace, once with nested pre-emption), '
+        'modulo declared independence' + ('; disconnect()+loss exhaustively; triples with a loss' if ctx.thorough else '') +
+        '.  Every schedule of every configuration: at quiescence the server object graph is walked for anything that still '
+        'names the lost transport / the ended sessions (oracle kind client-trace-left)')
     cov['pubsub_manager_schedules'] = stats['pubsub_runs']
     cov['pubsub_manager_gate_serial'] = stats['pubsub_serial']
     cov['pubsub_manager_with_queue_message'] = stats['pubsub_queue']
